@@ -127,6 +127,12 @@ func c06v6(rec *obs.Rec, b []byte) *obs.Fail {
 	t1a, e1 := gen.FromLibMsg(m1)
 	t2a, e2 := gen.FromLibMsg(m2)
 	if e1 == nil && e2 == nil {
+		// (modulo the normalisations the property lists — they apply to a DHCPv4 message carried inside as well: a
+		// 128-octet boot file name without NUL comes back cut to 127)
+		refv6.Normalize(t1a)
+		refv6.Normalize(t2a)
+		refv6.NormalizeEmbeddedV4(t1a)
+		refv6.NormalizeEmbeddedV4(t2a)
 		if p, w := refv6.Diff(t1a, t2a, false); p != "" {
 			return obs.Failf("C06/v6/unequal-after-trip/"+sigPath(p), "m2 equal to m1", "%s: %s", p, w)
 		}
@@ -146,6 +152,8 @@ func c06v6(rec *obs.Rec, b []byte) *obs.Fail {
 	}
 	refv6.Normalize(r0)
 	refv6.Normalize(r1)
+	refv6.NormalizeEmbeddedV4(r0)
+	refv6.NormalizeEmbeddedV4(r1)
 	if p, w := refv6.Diff(r0, r1, false); p != "" {
 		return obs.Failf("C06/v6/meaning/"+sigPath(p), "same meaning after re-encoding", "%s: original vs re-encoded: %s", p, w)
 	}
